@@ -41,7 +41,20 @@ def _cells(dict_node, prog, module):
             dups.append((row, None, rk.lineno))
         out[row] = {}
         if not isinstance(rv, ast.Dict):
-            raise AnalysisError("row %r of a transition table is not a dict display" % row)
+            # a computed row (a constant-building helper): every cell is attributed to the row
+            try:
+                val = prog.fold(rv, module)
+            except NotFoldable as e:
+                raise AnalysisError("row %r of a transition table is neither a dict display nor "
+                                    "a foldable constant expression (%s)" % (row, e))
+            if not isinstance(val, dict) or not all(
+                    isinstance(k, str) and isinstance(v, str) for k, v in val.items()):
+                raise AnalysisError("row %r of a transition table does not fold to a mapping of "
+                                    "event names to statuses" % row)
+            for ev, tgt in val.items():
+                out[row][ev] = (rk, rv, tgt)
+            out[row]["__line__"] = rk.lineno
+            continue
         for ck, cv in zip(rv.keys, rv.values):
             ev = prog.fold(ck, module)
             if ev in out[row]:
@@ -84,6 +97,63 @@ class TableFacts(object):
         self._leaves = {}
 
     # ------------------------------------------------------------------ event constructors
+    def _name_template(self, e, params, module):
+        """'prefix_%s' for a string expression built from constants and one constructor
+        parameter (the status): "x_%s" % p, "x_" + p, "x" + "_%s" % p, "x_{}".format(p),
+        f"x_{p}".  None when the expression is anything else."""
+        if isinstance(e, ast.Constant) and isinstance(e.value, str):
+            return e.value.replace("%", "%%")
+        if isinstance(e, ast.Name):
+            if e.id in params:
+                return "%s"
+            try:
+                v = self.prog.fold(e, module)
+                return v.replace("%", "%%") if isinstance(v, str) else None
+            except NotFoldable:
+                return None
+        if isinstance(e, ast.BinOp) and isinstance(e.op, ast.Add):
+            l, r = self._name_template(e.left, params, module), self._name_template(
+                e.right, params, module)
+            return None if l is None or r is None else l + r
+        if isinstance(e, ast.BinOp) and isinstance(e.op, ast.Mod) and isinstance(
+                e.left, ast.Constant) and isinstance(e.left.value, str):
+            args = e.right.elts if isinstance(e.right, ast.Tuple) else [e.right]
+            parts = [self._name_template(a, params, module) for a in args]
+            if any(p_ is None for p_ in parts) or e.left.value.count("%s") != len(parts):
+                return None
+            out, rest = "", e.left.value
+            for p_ in parts:
+                i = rest.index("%s")
+                out += rest[:i].replace("%", "%%") + p_
+                rest = rest[i + 2:]
+            return out + rest.replace("%", "%%")
+        if isinstance(e, ast.JoinedStr):
+            out = ""
+            for v in e.values:
+                if isinstance(v, ast.Constant):
+                    out += str(v.value).replace("%", "%%")
+                elif isinstance(v, ast.FormattedValue) and v.format_spec is None:
+                    t = self._name_template(v.value, params, module)
+                    if t is None:
+                        return None
+                    out += t
+                else:
+                    return None
+            return out
+        if isinstance(e, ast.Call) and isinstance(e.func, ast.Attribute) and e.func.attr == "format" \
+                and isinstance(e.func.value, ast.Constant) and isinstance(e.func.value.value, str) \
+                and not e.keywords and e.func.value.value.count("{}") == len(e.args):
+            out, rest = "", e.func.value.value
+            for a in e.args:
+                t = self._name_template(a, params, module)
+                if t is None:
+                    return None
+                i = rest.index("{}")
+                out += rest[:i].replace("%", "%%") + t
+                rest = rest[i + 2:]
+            return out + rest.replace("%", "%%")
+        return None
+
     def _event_templates(self):
         """{'TaskExecutionEvent': 'task_%s', ...} read from the super().__init__ calls."""
         out = {}
@@ -96,9 +166,10 @@ class TableFacts(object):
                 if (isinstance(node, ast.Call) and isinstance(node.func, ast.Attribute)
                         and node.func.attr == "__init__" and node.args):
                     a0 = node.args[0]
-                    if (isinstance(a0, ast.BinOp) and isinstance(a0.op, ast.Mod)
-                            and isinstance(a0.left, ast.Constant) and isinstance(a0.left.value, str)):
-                        out[cname] = a0.left.value
+                    params = [p_ for p_ in init.params if p_ not in ("self", "cls")]
+                    tpl = self._name_template(a0, params, init.module)
+                    if tpl is not None and tpl.count("%s") == 1:
+                        out[cname] = tpl
         # classes that inherit __init__ (TaskItemActionExecutionEvent passes the status on)
         for cname, ci in evm.classes.items():
             if cname not in out:
@@ -127,7 +198,7 @@ class TableFacts(object):
                         t = node.targets[0]
                         if isinstance(t, ast.Attribute) and isinstance(t.value, ast.Name):
                             try:
-                                v = self.prog.fold(node.value, evm)
+                                v = self.prog.fold(subst_locals(init.node, node.value), evm)
                             except NotFoldable:
                                 continue
                             if t.attr == "name":
